@@ -883,6 +883,59 @@ func c06Sat(p *Prog, rp *Report) {
 			}
 		}
 	}
+	// end to end, with version.Parse and version.Compare interpreted rather than played: numbers that the
+	// dependency parser lets through but that are no versions never satisfy anything (and never panic), and a few
+	// real comparisons come out right
+	if bad == 0 {
+		m := NewMachine(p, nil)
+		installStringModels(m)
+		type e2e struct {
+			op, n, v string
+			want    bool
+		}
+		var tbl []e2e
+		for _, n := range []string{"-1", "-", "0:-1", "1:-0~1", "", "a", ":1", "1:", "1 2", "-0"} {
+			for _, op := range []string{"<<", "<=", "=", ">=", ">>"} {
+				tbl = append(tbl, e2e{op, n, "1.0-1", false})
+			}
+		}
+		tbl = append(tbl, e2e{">=", "1.0", "1.0-1", true}, e2e{"<<", "1.0", "1.0~rc1", true}, e2e{"=", "1:2.0-1", "1:2.0-1", true}, e2e{">>", "2.0", "1:0.1", true}, e2e{"<=", "1.0-1", "1.0-2", false})
+		for _, row := range tbl {
+			st := freshState(m, "dependency", "version")
+			// V is parsed by the library itself
+			st.push(parse, []Val{row.v}, nil)
+			out := m.Run(st)
+			if len(out) != 1 || out[0].Status != stRet {
+				r.undecided("dependency.VersionRelation.SatisfiedBy", pos, fmt.Sprintf("version.Parse(%q): %s", row.v, retDesc(out)))
+				return
+			}
+			vv := st.Ret.(*TupleV).E[0]
+			var recvArg Val = mkStruct(vrT, map[string]Val{"Number": row.n, "Operator": row.op})
+			if _, ptrRecv := fn.Signature.Recv().Type().(*types.Pointer); ptrRecv {
+				recvArg = Ptr{Obj: st.alloc(vrT, recvArg)}
+			}
+			st.Status = stRun
+			st.Frames = nil
+			st.push(fn, []Val{recvArg, vv}, nil)
+			out = m.Run(st)
+			rows++
+			switch {
+			case len(out) == 1 && out[0].Status == stPanic:
+				bad++
+				if first == "" {
+					first = fmt.Sprintf("(%s %s) asked about %s panics: %s (an unparsable number must give false)", row.op, row.n, row.v, out[0].Msg)
+				}
+			case len(out) != 1 || out[0].Status != stRet:
+				r.undecided("dependency.VersionRelation.SatisfiedBy", pos, fmt.Sprintf("(%s %q) about %s: %s", row.op, row.n, row.v, retDesc(out)))
+				return
+			case out[0].Ret != row.want:
+				bad++
+				if first == "" {
+					first = fmt.Sprintf("(%s %s) asked about %s answers %v, want %v", row.op, row.n, row.v, out[0].Ret, row.want)
+				}
+			}
+		}
+	}
 	if bad > 0 {
 		r.bad("dependency.VersionRelation.SatisfiedBy", pos, fmt.Sprintf("%d of %d rows wrong: %s", bad, rows, first), nil)
 	} else {
